@@ -189,18 +189,16 @@ func (ls *listenServer) route(r *core.Msg, slot int32) (string, bool) {
 			pool.AutoBanFlag = false
 			liveSlaves = append(liveSlaves, v.Addr)
 		}
+	}
 
-		if len(liveSlaves) == 0 {
-			continue
-		}
-
+	// pick among all live slaves, not just the first one found
+	if len(liveSlaves) > 0 {
 		return liveSlaves[rand.Intn(len(liveSlaves))], true
 	}
 
 	return core.EngineGlobal.Slots2Node.Get(slot).Master.Addr, false
 }
 
-// OnMoved process the redis moved/ask packet
 // Asking is sent ahead of a command that follows an ASK redirect, as the cluster protocol requires.
 const Asking = "*1\r\n$6\r\nASKING\r\n"
 
@@ -208,6 +206,7 @@ const Asking = "*1\r\n$6\r\nASKING\r\n"
 // could otherwise bounce it forever).
 const maxRedirects = 16
 
+// OnMoved process the redis moved/ask packet
 func (ls *listenServer) OnMoved(addr string, slot int32, s core.SConn, f *core.Frag) {
 	ask := f.Type == codec.RspAsk
 	f.RspBody = f.RspBody[:0]
